@@ -19,11 +19,6 @@ use std::fs::{File, OpenOptions};
 use std::io::{Read, Seek, SeekFrom, Write};
 use std::path::{Path, PathBuf};
 
-/// Generate a generic filename for files without known names
-fn generate_anonymous_filename(hash: u32) -> String {
-    format!("File{:08X}.unknown", hash)
-}
-
 /// Options for adding files to an archive
 #[derive(Debug, Clone)]
 pub struct AddFileOptions {
@@ -595,6 +590,10 @@ impl MutableArchive {
         use std::fs;
         use tempfile::NamedTempFile;
 
+        // Bring the file on disk and the read-only view up to date, so that the listing
+        // and the file contents read below are those of the current state
+        self.flush()?;
+
         // Ensure tables are loaded
         self.ensure_tables_loaded()?;
 
@@ -644,12 +643,24 @@ impl MutableArchive {
                         None
                     };
 
-                    let filename = filename.unwrap_or_else(|| {
-                        // Generate placeholder name if not found in listfile
-                        generate_anonymous_filename(
-                            ((entry.name_1 as u64) << 32 | entry.name_2 as u64) as u32,
-                        )
+                    // Internal files need not be listed
+                    let filename = filename.or_else(|| {
+                        ["(listfile)", "(attributes)", "(signature)"]
+                            .iter()
+                            .find(|name| {
+                                entry.name_1 == hash_string(name, hash_type::NAME_A)
+                                    && entry.name_2 == hash_string(name, hash_type::NAME_B)
+                            })
+                            .map(|name| name.to_string())
                     });
+
+                    // Without its name a file cannot be re-added (hash and encryption key
+                    // derive from it): fail rather than store it under an invented name
+                    let filename = filename.ok_or_else(|| {
+                        Error::invalid_format(format!(
+                            "Cannot compact: the name of the file at hash table index {hash_idx} is not in the (listfile)"
+                        ))
+                    })?;
 
                     files_to_copy.push((hash_idx, block_idx, filename, *entry, *block));
                 }
